@@ -401,7 +401,7 @@ class Discharger:
             div = root[2][1]
             dap = (div[0], div[1] + ("value",))
             call_bb = root[3]
-            r = decide_divisor(self.F, fn, call_bb, fn.blocks[call_bb]["term"], "<&Number as Div>::div", dap, 1)
+            r = decide_divisor(self.F, fn, call_bb, fn.blocks[call_bb]["term"], "<&Number as Div>::div", dap, 1, both_zeros=True)
             if r:
                 return ("D0", "Number / Number is Some because the divisor is non-zero: " + r[1])
         if root[0] == "call" and not ap[1] and root[1].endswith("Peekable::<I>::peek"):
@@ -736,7 +736,46 @@ def divisor_obligations(F, reach):
     return out
 
 
-def decide_divisor(F, fn, bb, t, wrapper, ap, idx):
+
+_fz_cache = {}
+
+
+def float_zero_lines(F, fn):
+    """Source lines of fn (or of the function a closure lives in) holding a comparison with the literal Numeric::Float(0.0)
+    (the operand is a promoted constant in MIR, so its value is read from the HIR)."""
+    from facts import hir_walk
+    key = fn.id
+    if key in _fz_cache:
+        return _fz_cache[key]
+    owner = fn
+    if "{closure" in fn.path:
+        base = fn.path.split("::{closure")[0]
+        cands = [f for f in F.by_crate[fn.crate] if f.path == base]
+        if cands:
+            owner = cands[0]
+    lines = set()
+    try:
+        h = F.hir_of(owner)
+    except AnchorLost:
+        h = None
+    if h is not None:
+        for n in hir_walk(h["body"]):
+            if n.get("k") == "Binary" and n.get("op") in ("Eq", "Ne"):
+                for side in (n["a"], n["b"]):
+                    e = side
+                    while e.get("k") in ("AddrOf",):
+                        e = e["e"]
+                    if e.get("k") == "Call" and e["f"].get("k") == "Path" and e["f"]["r"].get("ctor_of", "").endswith("Numeric::Float") and e["args"] and \
+                            e["args"][0].get("k") == "Lit" and float(e["args"][0]["lit"].get("v", 1) or 0) == 0.0:
+                        lines.add(n.get("line"))
+                        lines.add(side.get("line"))
+    _fz_cache[key] = lines
+    return lines
+
+
+def decide_divisor(F, fn, bb, t, wrapper, ap, idx, both_zeros=False):
+    """both_zeros: the obligation is "the quotient is Some", i.e. the divisor is neither the rational 0 nor Float(0.0)
+    (Numeric's derived == tells them apart); float underflow makes products and powers useless as evidence there."""
     # 1. the caller is itself a wrapper and the divisor is its own divisor parameter: pushed further up
     if fn.path in DIVISOR_OF:
         pidx, pextra = DIVISOR_OF[fn.path]
@@ -750,11 +789,15 @@ def decide_divisor(F, fn, bb, t, wrapper, ap, idx):
     if k4.float_guarded(fn, bb):
         return ("D0", "float arm (IEEE division does not panic)")
     r = nonzero(fn, ap)
+    if r and both_zeros and ("product" in r or "power" in r or "pow" in r or "abs" in r):
+        r = None
     if r:
         return ("D0", "divisor is non-zero by construction: " + r)
     if ap[1][-1:] == ("value",) and value_reset_to_one(fn, t["args"][idx], bb):
         return ("D0", "divisor's value was reset to Numeric::one()")
     # 2. an exact zero test of the same value guards the call
+    fz = float_zero_lines(F, fn)
+
     def acc(kind, gap, info):
         if kind != "bool":
             return None
@@ -763,11 +806,27 @@ def decide_divisor(F, fn, bb, t, wrapper, ap, idx):
                                         "<types::bigint::BigInt as core::cmp::PartialEq>::eq", "<types::bigint::BigInt as core::cmp::PartialEq>::ne",
                                         "<types::bigrat::BigRat as core::cmp::PartialEq>::eq", "<types::bigrat::BigRat as core::cmp::PartialEq>::ne"):
             args = r[2]
-            zero = [a for a in args if a[0][0] == "call" and a[0][1].endswith(("::zero",))] + [a for a in args if a[0][0] == "agg" and "Float" in a[0][1]]
+            zero = [a for a in args if a[0][0] == "call" and a[0][1].endswith(("::zero",))] + [a for a in args if a[0][0] == "agg" and "Float" in a[0][1]] + \
+                [a for a in args if a[0][0] == "const" and "promoted" in str(a[0][1]) and "types::numeric::Numeric" in str(a[0][1]) and fn.blocks[r[3]]["term"]["loc"].get("line") in fz]
             other = [a for a in args if a not in zero]
             if zero and other and same_value(other[0], ap):
                 return {"false"} if r[1].endswith("::eq") else {"true"}
         return None
+    if both_zeros:
+        def only(which):
+            def f(kind, gap, info):
+                a = acc(kind, gap, info)
+                if not a:
+                    return None
+                isfloat = any((x[0][0] == "agg" and "Float" in x[0][1]) or (x[0][0] == "const" and "promoted" in str(x[0][1])) for x in gap[0][2])
+                return a if isfloat == (which == "float") else None
+            return f
+        r1, m1 = k2.cut_gate(fn, [bb], only("rational"))
+        r2, m2 = k2.cut_gate(fn, [bb], only("float"))
+        if m1 and m2 and r1[bb] and r2[bb]:
+            return ("D0", "behind exact tests of the divisor against both the rational zero and Float(0.0)")
+        if m1 and r1[bb]:
+            return None
     res, matched = k2.cut_gate(fn, [bb], acc)
     if matched and res[bb]:
         return ("D0", "behind an exact zero test of the divisor")
